@@ -375,6 +375,13 @@ example : ∃ r ∈ commSlack ⟨4 + 1 / 2 ^ 18, 1, ⟨[1, 1], [2, 2], [0, 0]⟩
 /-- the slack is zero exactly at the integers: `commSlack` entries vanish iff `λf/(δΔ)` is an integer -/
 theorem commSlack_zero_iff (q : ℚ) : truncSlack q = 0 ↔ q.den = 1 := truncSlack_eq_zero_iff q
 
+/-- **The tolerant classification specialises to the exact one**: with `atol = rtol = 0` the executed `classifyLoose`
+(whose instances `1e-10, 0` and `1e-8, 1e-5` the driver reports as `tolclass` / `allclose`) *is* `classify`, for all setups
+and grids of any dimension. -/
+theorem classifyLoose_zero (s : Setup) (focal : RegGrid) : classifyLoose 0 0 s focal = classify s focal := by
+  unfold classifyLoose classify paddedSizes
+  simp only [paddedSizeLoose_zero]
+
 /-- **Counterexample for a tolerant test** (`np.allclose(q·N, round(q·N))`, `atol = 1e-8`, `rtol = 1e-5`, in place of the
 exact/`1e-10` one): the full conjugate grid of a 2×2 pupil for `λf = 4`, used at `λ = 4·(1 + 2^-20)`, is `other` for the exact
 classification but `full` with padded sizes `[4, 4]` for `classifyLoose`; the FFT built for those sizes evaluates on
